@@ -57,6 +57,14 @@ class World:
         shutil.rmtree(self.root, ignore_errors=True)
         self.mem.close()
 
+    def make_song(self, tree):
+        """The tree as a directory named 'Song' (so that entries such as 'Song-bg.jpg' begin with the directory's name)."""
+        m, n = self.make({"Song": tree})
+        return m + "/Song", os.path.join(n, "Song")
+
+    def drop_song(self, mpath, npath):
+        self.drop(fs.path.dirname(mpath), os.path.dirname(npath))
+
     def make(self, tree):
         self.n += 1
         name = f"t{self.n}"
@@ -116,17 +124,37 @@ def respell(fsname, base, how):
     raise core.MachineryError(how)
 
 
-DIRSPELLS = ("plain", "dot", "updown", "doubled")
+DIRSPELLS = ("plain", "dot", "updown", "doubled", "relative")
 
 
 def check_assets(world, tree, props, order, paths, given=True, empty_simfile=False, kinds=MA.KINDS, dirspell="plain"):
     """tree: directory content (name -> bytes | dict). props: simfile properties (dict)."""
     fails = []
-    mt = model_tree(tree)
     for fsname, fsobj, real_base in (("mem", world.mem, paths[0]), ("nat", world.nat, paths[1])):
+        if dirspell != "relative":
+            fails += _check_assets_on(fsname, fsobj, real_base, respell(fsname, real_base, dirspell), tree, props, order, given, empty_simfile, kinds, lambda p: norm(fsname, p))
+        elif fsname == "mem":
+            # PyFilesystem resolves a relative path from the filesystem's root
+            fails += _check_assets_on(fsname, fsobj, real_base, real_base.lstrip("/"), tree, props, order, given, empty_simfile, kinds,
+                                      lambda p: fs.path.abspath(fs.path.normpath(p)))
+        else:
+            cwd = os.getcwd()
+            try:
+                os.chdir(os.path.dirname(real_base))
+                fails += _check_assets_on(fsname, fsobj, real_base, os.path.basename(real_base), tree, props, order, given, empty_simfile, kinds,
+                                          lambda p: os.path.normpath(os.path.abspath(p)))
+            finally:
+                os.chdir(cwd)
+    return fails
+
+
+def _check_assets_on(fsname, fsobj, real_base, base, tree, props, order, given, empty_simfile, kinds, canon):
+    """canon: answer -> the absolute normalized path it denotes (for relative spellings evaluated in the right cwd)."""
+    fails = []
+    mt = model_tree(tree)
+    if True:
         fsobj.order = order
         tag = {"fs": fsname}
-        base = respell(fsname, real_base, dirspell)
         if given:
             sf = SMSimfile(string="")
             if not empty_simfile:
@@ -138,7 +166,7 @@ def check_assets(world, tree, props, order, paths, given=True, empty_simfile=Fal
             res = core.outcome_of(lambda: Assets(base, filesystem=fsobj))
         if res[0] != "ok":
             fails.append({"clause": "Assets(...) raised", "expected": "asset loader", "observed": res, **tag})
-            continue
+            return fails
         loaders = [("Assets", res[1])]
         if not given:
             # the same loader obtained through SimfileDirectory.assets()
@@ -162,7 +190,7 @@ def check_assets(world, tree, props, order, paths, given=True, empty_simfile=Fal
                   fails.append({"clause": "asset lookup raised", "expected": sorted(want) or None, "observed": r1, "kind": kind, **tag})
                   continue
               got = r1[1]
-              if (got is None) != (not want) or (got is not None and norm(fsname, got) not in want):
+              if (got is None) != (not want) or (got is not None and canon(got) not in want):
                   fails.append({"clause": "asset answer is not the named file (case-insensitive) / a pattern match / None", "expected": sorted(want) or None, "observed": got, "kind": kind, **tag})
                   continue
               if got is not None and (not exists(fsname, fsobj, got) or got != norm(fsname, got)):
@@ -249,11 +277,11 @@ def check_case(case):
             tree = {n: b"x" for n in case["names"]}
             if case.get("with_simfile"):
                 tree["song.sm"] = b"#TITLE:t;"
-            paths = world.make(tree)
-            return check_assets(world, tree, {}, case["order"], paths, given=not case.get("with_simfile"))
+            paths = world.make_song(tree)
+            return check_assets(world, tree, {}, case["order"], paths, given=not case.get("with_simfile"), dirspell=case.get("dirspell", "plain"))
         if case["kind"] == "property":
             tree, props = property_tree(case["asset"], case["state"], case["extra"])
-            paths = world.make(tree)
+            paths = world.make_song(tree)
             return check_assets(world, tree, props, case["order"], paths, given=True, empty_simfile=(case["state"] == "emptysimfile"), kinds=(case["asset"],), dirspell=case.get("dirspell", "plain"))
         if case["kind"] == "packbanner":
             return check_pack_banner(world, case["inside"], case["beside"], case["order"], case["slash"])
@@ -303,14 +331,16 @@ def explore_shard(acc, shard):
                     tree = {n: b"x" for n in names}
                     if with_simfile:
                         tree["song.sm"] = b"#TITLE:t;"
-                    paths = world.make(tree)
+                    paths = world.make_song(tree)
                     acc.count("states")
                     if len(names) >= 2:
                         acc.count("nontrivial")
-                    for order in range(fsseam.orders_for(len(tree))):
-                        case = {"kind": "content", "names": names, "order": order, "with_simfile": with_simfile}
+                    for order, dirspell in [(o, "plain") for o in range(fsseam.orders_for(len(tree)))] + [(0, "relative")]:
+                        case = {"kind": "content", "names": names, "order": order, "with_simfile": with_simfile, "dirspell": dirspell}
                         core.guard_cheap(acc, case)
-                        fails = check_assets(world, tree, {}, order, paths, given=not with_simfile)
+                        fails = check_assets(world, tree, {}, order, paths, given=not with_simfile, dirspell=dirspell)
+                        if dirspell == "relative":
+                            acc.outcome("directory named relative to the current directory")
                         acc.count("transitions")
                         acc.count("evaluations", 12)
                         n_match = sum(1 for k in MA.KINDS if sum(MA.matches(k, n) for n in names) >= 2)
@@ -318,7 +348,7 @@ def explore_shard(acc, shard):
                             acc.outcome("several entries match one kind")
                         for f in fails:
                             acc.violation(f["clause"], case, f["expected"], f["observed"], signature=(f["clause"], f.get("kind")))
-                    world.drop(*paths)
+                    world.drop_song(*paths)
             if case:
                 acc.sample(layer, case)
         elif kind == "property":
@@ -333,7 +363,7 @@ def explore_shard(acc, shard):
                         if state == "updown" and not ("sub-named" in extra or "sub-empty" in extra):
                             continue  # 'sub/..' is only unambiguous when 'sub' exists
                         tree, props = property_tree(asset, state, extra)
-                        paths = world.make(tree)
+                        paths = world.make_song(tree)
                         acc.count("states")
                         acc.count("nontrivial")
                         nent = len(tree)
@@ -356,7 +386,7 @@ def explore_shard(acc, shard):
                                 acc.outcome("completely empty simfile object given")
                             for f in fails:
                                 acc.violation(f["clause"], case, f["expected"], f["observed"], signature=(f["clause"], state if "raised" in f["clause"] else None))
-                        world.drop(*paths)
+                        world.drop_song(*paths)
             acc.sample(layer, case)
         elif kind == "packbanner":
             _, first = shard
@@ -425,6 +455,7 @@ def explore(run):
     core.require(acc.outcomes["completely empty simfile object given"] > 0, "empty simfile never given")
     core.require(acc.outcomes["specified file whose name begins/ends with blanks"] > 0, "no blank-edged file name")
     core.require(acc.outcomes["banner beside the pack"] > 0, "no banner beside pack")
+    core.require(acc.outcomes["directory named relative to the current directory"] > 0, "no relative directory")
     core.require(acc.outcomes["neighbour whose name only resembles the pack's"] > 0, "no look-alike neighbour")
     return run.finish(
         states=acc.c["states"],
